@@ -1334,6 +1334,90 @@ func (g *gen) orders() error {
 	return nil
 }
 
+// ---- deletePodChains / deletePodRuleByKeyword
+
+func (g *gen) deletePodChainsFacts() error {
+	nf, err := g.fn("deletePodChains")
+	if err != nil {
+		return err
+	}
+	var calls, order []string
+	for _, e := range events(g.nz, nf.Decl.Body.List, nil) {
+		if e.call == nil {
+			continue
+		}
+		switch fn := txt(e.call.Fun); fn {
+		case "p.deletePodRuleByKeyword":
+			if len(e.call.Args) != 3 || txt(e.call.Args[0]) != "pod" || !onlyErrGuards(e.ctx) {
+				return fmt.Errorf("deletePodChains: unexpected %s under %v", txt(e.call), e.ctx)
+			}
+			calls = append(calls, "("+fg.LeanStr(txt(e.call.Args[1]))+", "+fg.LeanStr(txt(e.call.Args[2]))+")")
+			order = append(order, "deletePodRuleByKeyword")
+		case "p.iptableHandle.FlushChain", "p.iptableHandle.DeleteChain":
+			if len(e.call.Args) != 2 || txt(e.call.Args[1]) != "utiliptables.Chain(podChainName(pod))" {
+				return fmt.Errorf("deletePodChains: unexpected %s", txt(e.call))
+			}
+			order = append(order, strings.TrimPrefix(fn, "p.iptableHandle."))
+		}
+	}
+	g.emit("-- deletePodChains: the hook rules are searched by this keyword in these chains; then the pod chain is flushed, deleted")
+	g.emit("def deletePodChainsCalls : List (String × String) := [%s]", strings.Join(calls, ", "))
+	g.emit("def deletePodChainsOrder : List String := %s", leanStrs(order))
+
+	nf, err = g.fn("deletePodRuleByKeyword")
+	if err != nil {
+		return err
+	}
+	evs := events(g.nz, nf.Decl.Body.List, nil)
+	lines := definedBy(evs, "p.iptableHandle.ListRule(utiliptables.TableFilter, chain)", 0)
+	if lines == "" {
+		return fmt.Errorf("deletePodRuleByKeyword: the rules of the chain are no longer listed by ListRule(filter, chain)")
+	}
+	// the line kept: assigned from the loop variable under `strings.Contains(<line>, keyword)`, followed by break
+	kept, first := "", false
+	for i, e := range evs {
+		as, ok := e.stmt.(*ast.AssignStmt)
+		if !ok || !e.has("range "+lines) || len(as.Lhs) != 1 || len(as.Rhs) != 1 {
+			continue
+		}
+		v := txt(as.Rhs[0])
+		if contains(e.conds(), "strings.Contains("+v+", keyword)") {
+			kept = txt(as.Lhs[0])
+			if i+1 < len(evs) && txt(evs[i+1].stmt) == "break" && sameSet(evs[i+1].ctx, e.ctx) {
+				first = true
+			}
+		}
+	}
+	if kept == "" {
+		return fmt.Errorf("deletePodRuleByKeyword: the rule line is no longer chosen by strings.Contains(line, keyword)")
+	}
+	parts := definedBy(evs, `strings.Split(`+kept+`, " ")`, 0)
+	drop := -1
+	for _, e := range evs {
+		if e.call == nil || txt(e.call.Fun) != "p.iptableHandle.DeleteRule" {
+			continue
+		}
+		if drop >= 0 || len(e.call.Args) != 3 || e.call.Ellipsis == token.NoPos || txt(e.call.Args[0]) != "utiliptables.TableFilter" ||
+			txt(e.call.Args[1]) != "chain" || e.has("range "+lines) {
+			return fmt.Errorf("deletePodRuleByKeyword: unexpected %s", txt(e.call))
+		}
+		if sl, ok := e.call.Args[2].(*ast.SliceExpr); ok && txt(sl.X) == parts && sl.High == nil && sl.Low != nil {
+			if n, err := strconv.Atoi(txt(sl.Low)); err == nil {
+				drop = n
+			}
+		}
+	}
+	if drop < 0 || parts == "" {
+		return fmt.Errorf("deletePodRuleByKeyword: the words of the deleted rule are no longer the words of the line after a prefix")
+	}
+	g.emit("-- deletePodRuleByKeyword: ListRule lines are `-A <chain> <rule words>`; the FIRST line containing the keyword is")
+	g.emit("-- split at blanks, its first words dropped (the `-A <chain>`), the rest passed to DeleteRule")
+	g.emit("def deleteByKeywordMatch : String := %s", fg.LeanStr("strings.Contains(line, keyword)"))
+	g.emit("def deleteByKeywordFirstMatchOnly : Bool := %s", fg.LeanBool(first))
+	g.emit("def deleteByKeywordDropsWords : Nat := %d", drop)
+	return nil
+}
+
 func generate(repo string) (map[string]string, error) {
 	g := &gen{nfs: map[string]*NF{}}
 	var err error
@@ -1366,7 +1450,7 @@ func generate(repo string) (map[string]string, error) {
 	g.emit("def chainNotExistErr : String := %s", fg.LeanStr(g.vars["chainNotExistErr"]))
 	g.emit("")
 	for _, f := range []func() error{g.nameFormats, g.policyChainTemplates, g.writeRulesFacts, g.ingressOrEgress,
-		g.rulePorts, g.peerTable, g.podChains, g.orders} {
+		g.rulePorts, g.peerTable, g.podChains, g.deletePodChainsFacts, g.orders} {
 		if err := f(); err != nil {
 			return nil, err
 		}
